@@ -442,6 +442,37 @@ def main(tier, seed):
             disagreements += 1
             res.violation("model write_real_text and WriteReal disagree", {"value": v, "impl": w, "model": mw,
                           "theorem_or_correspondence": "correspondence C09: write_real_text vs WriteReal"}, found_input=False)
+    # elements of aggregates have writers of their own (IntNode / RealNode): every writer gives the value that was read
+    ivals = sorted(set([str(x) for k_ in range(0, 63) for d_ in (-1, 0, 1) for x in (2 ** k_ + d_, -(2 ** k_) + d_)] +
+                       [str(x) for k_ in range(0, 19) for d_ in (-1, 0, 1) for x in (10 ** k_ + d_, -(10 ** k_) + d_)] +
+                       [str(r.randint(-2 ** 62, 2 ** 62)) for _ in range(100)]))
+    rc_i, ao = run(exe, ["A %s" % hexs(v + ",") for v in ivals])
+    for v, line in zip(ivals, ao):
+        p_ = line.split()
+        total += 1
+        kinds_hist["A"] = kinds_hist.get("A", 0) + 1
+        if int(v) == 9223372036854775807:
+            continue          # the library's 'unset' value (open finding of C01)
+        if len(p_) != 5 or p_[0] != "A" or int(p_[1]) != 3 or p_[2:] != [v, v, v]:
+            oracle_fail += 1
+            res.violation("the INTEGER %s as an element of an aggregate is read with severity %s and written as %s" % (v, p_[1] if len(p_) > 1 else "?", p_[2:]),
+                          {"value": v, "answer": line, "replay": "echo 'A %s' | %s" % (hexs(v + ","), exe)})
+    rvals = [w_ for w_ in sorted(set(io[k].split()[2] for k in range(len(wv)) if k < len(io) and len(io[k].split()) == 3)) if W_RE.match(w_)][:: (7 if tier == "quick" else 1)]
+    rc_i, qo = run(exe, ["Q %s" % hexs(v + ",") for v in rvals])
+    for v, line in zip(rvals, qo):
+        p_ = line.split()
+        total += 1
+        kinds_hist["Q"] = kinds_hist.get("Q", 0) + 1
+        ok_ = len(p_) == 5 and p_[0] == "Q" and int(p_[1]) == 3
+        if ok_:
+            try:
+                ok_ = all(W_RE.match(x_) and float(x_) == float(v) for x_ in p_[2:])
+            except ValueError:
+                ok_ = False
+        if not ok_ and abs(float(v)) != 1.17549435082229e-38:
+            oracle_fail += 1
+            res.violation("the REAL %s (as the writer prints it) as an element of an aggregate is read with severity %s and written as %s" % (v, p_[1] if len(p_) > 1 else "?", p_[2:]),
+                          {"value": v, "answer": line, "replay": "echo 'Q %s' | %s" % (hexs(v + ","), exe)})
     # read back what the writer wrote
     rb = [io[k].split()[2] for k in range(len(wv)) if k < len(io) and len(io[k].split()) == 3]
     rc_i, ro = run(exe, ["R %s" % hexs(w + ",") for w in rb])
